@@ -245,23 +245,73 @@ theorem finish_ids (header : List String) (chunks : List (List Row)) (missing : 
     funext x; simp [Row.cell]
   rw [this, ← List.map_map, List.zipIdx_map_snd, List.range_eq_range']
 
+/-- inversion of a successful bind in `Except` -/
+theorem except_bind_eq_ok_iff {ε α β : Type} (x : Except ε α) (f : α → Except ε β) (b : β) :
+    (x >>= f) = .ok b ↔ ∃ a, x = .ok a ∧ f a = .ok b := by
+  cases x with
+  | error e => exact ⟨fun h => (by cases h), fun ⟨_, h, _⟩ => (by cases h)⟩
+  | ok a => exact ⟨fun h => ⟨a, rfl, h⟩, fun ⟨_, h, h'⟩ => (by cases h; exact h')⟩
+
+theorem raiseIf_eq_ok (c : Bool) (e : PyErr) (u : Unit) : raiseIf c e = .ok u ↔ c = false := by
+  cases c
+  · exact ⟨fun _ => rfl, fun _ => rfl⟩
+  · exact ⟨fun h => (by cases h), fun h => (by cases h)⟩
+
+/-- `output_table.insert(0, '_id', …)` succeeds iff the header has no `_id` column -/
+theorem finishPy_eq_ok (header : List String) (chunks : List (List Row)) (missing : Option (List Row)) (fr : Frame) :
+    finishPy header chunks missing = .ok fr ↔ "_id" ∉ header ∧ fr = finish header chunks missing := by
+  unfold finishPy
+  by_cases h : "_id" ∈ header
+  · rw [if_pos h]; exact ⟨fun h' => (by cases h'), fun h' => absurd h h'.1⟩
+  · rw [if_neg h]
+    exact ⟨fun h' => ⟨h, (Except.ok.inj h').symm⟩, fun h' => by rw [h'.2]⟩
+
+theorem finishPy_of_not_mem (header : List String) (chunks : List (List Row)) (missing : Option (List Row))
+    (h : "_id" ∉ header) : finishPy header chunks missing = .ok (finish header chunks missing) :=
+  (finishPy_eq_ok _ _ _ _).2 ⟨h, rfl⟩
+
+theorem finishPy_of_mem (header : List String) (chunks : List (List Row)) (missing : Option (List Row))
+    (h : "_id" ∈ header) : finishPy header chunks missing = .error .other := by
+  unfold finishPy; rw [if_pos h]
+
+/-- INVERSION of a successful `runTables`: the tokenizer met only strings, the header has no `_id`
+    column, and the result is `finish` of some chunk results and missing rows -/
+theorem runTables_inv (a : TableArgs) (l r : Frame) (allowMissing outSimScore : Bool) (cpu : Int)
+    (work : OutCfg → Nat → Nat → List Row → List Row → List Row) (fr : Frame)
+    (h : runTables a l r allowMissing outSimScore cpu work = .ok fr) :
+    (joinCellsOk (convertToArray l (getAttrsToProject (removeRedundantAttrs a.lOut a.lKey) a.lKey a.lAttr) a.lAttr)
+        ((getAttrsToProject (removeRedundantAttrs a.lOut a.lKey) a.lKey a.lAttr).idxOf a.lAttr) &&
+     joinCellsOk (convertToArray r (getAttrsToProject (removeRedundantAttrs a.rOut a.rKey) a.rKey a.rAttr) a.rAttr)
+        ((getAttrsToProject (removeRedundantAttrs a.rOut a.rKey) a.rKey a.rAttr).idxOf a.rAttr)) = true ∧
+    "_id" ∉ (getOutputHeader a.lKey a.rKey (removeRedundantAttrs a.lOut a.lKey)
+        (removeRedundantAttrs a.rOut a.rKey) a.lPre a.rPre ++ (if outSimScore then ["_sim_score"] else [])) ∧
+    ∃ chunks missing, fr = finish (getOutputHeader a.lKey a.rKey (removeRedundantAttrs a.lOut a.lKey)
+        (removeRedundantAttrs a.rOut a.rKey) a.lPre a.rPre ++ (if outSimScore then ["_sim_score"] else []))
+        chunks missing := by
+  unfold runTables at h
+  simp only [] at h
+  obtain ⟨u, h1, h⟩ := (except_bind_eq_ok_iff _ _ _).1 h
+  obtain ⟨chunks, _, h⟩ := (except_bind_eq_ok_iff _ _ _).1 h
+  have h1' := (raiseIf_eq_ok _ _ _).1 h1
+  have key : ∃ missing, finishPy (getOutputHeader a.lKey a.rKey (removeRedundantAttrs a.lOut a.lKey)
+        (removeRedundantAttrs a.rOut a.rKey) a.lPre a.rPre ++ (if outSimScore then ["_sim_score"] else []))
+        chunks missing = .ok fr := by
+    cases allowMissing
+    · exact ⟨none, h⟩
+    · rw [if_pos rfl] at h
+      obtain ⟨missing, _, h⟩ := (except_bind_eq_ok_iff _ _ _).1 h
+      exact ⟨missing, h⟩
+  obtain ⟨missing, h⟩ := key
+  obtain ⟨hid, hfr⟩ := (finishPy_eq_ok _ _ _ _).1 h
+  exact ⟨by simpa using h1', hid, chunks, missing, hfr⟩
+
 theorem runTables_eq_finish (a : TableArgs) (l r : Frame) (allowMissing outSimScore : Bool) (cpu : Int)
     (work : OutCfg → Nat → Nat → List Row → List Row → List Row) (fr : Frame)
     (h : runTables a l r allowMissing outSimScore cpu work = .ok fr) :
     ∃ chunks missing, fr = finish (getOutputHeader a.lKey a.rKey (removeRedundantAttrs a.lOut a.lKey)
         (removeRedundantAttrs a.rOut a.rKey) a.lPre a.rPre ++ (if outSimScore then ["_sim_score"] else []))
-        chunks missing := by
-  unfold runTables at h
-  simp only [bind, Except.bind, pure, Except.pure] at h
-  split at h
-  · cases h
-  · split at h
-    · split at h
-      · cases h
-      · cases h
-        exact ⟨_, _, rfl⟩
-    · cases h
-      exact ⟨_, _, rfl⟩
+        chunks missing :=
+  (runTables_inv a l r allowMissing outSimScore cpu work fr h).2.2
 
 /-- the columns of every join / filter_tables result -/
 theorem runTables_columns (a : TableArgs) (l r : Frame) (allowMissing outSimScore : Bool) (cpu : Int)
